@@ -35,10 +35,10 @@ var convs = []func(string) string{
 	camelcase.UpperKebabCase, camelcase.LowerCamelCase, camelcase.UpperCamelCase,
 }
 
-var alphabet = []string{"a", "b", "z", "A", "B", "Z", "I", "D", "i", "d", "0", "1", "9", "_", "-", ".", " ", "/", "$", "\t", "'",
+var alphabet = []string{"a", "s", "z", "A", "S", "Z", "I", "D", "i", "d", "0", "1", "9", "_", "-", ".", " ", "/", "$", "\t", "'",
 	"é", "É", "ß", "İ", "ı", "ǅ", "ǆ", "Ǆ", "ſ", "́", "世", " ", "٣", "Ⅷ", "😀", " "}
 
-var words = []string{"ID", "Id", "id", "HTML", "Parser", "parser", "v2", "V2", "99", "Bottles", "XMLHttp", "Request", "ÜberRaschung", "ǅungla", "o'clock"}
+var words = []string{"IDs", "URLs", "HTTPs", "s", "S", "ID", "Id", "id", "HTML", "Parser", "parser", "v2", "V2", "99", "Bottles", "XMLHttp", "Request", "ÜberRaschung", "ǅungla", "o'clock"}
 
 func (prop) Generate(r *core.RNG, tier string) []json.RawMessage {
 	n := 1500
@@ -51,7 +51,7 @@ func (prop) Generate(r *core.RNG, tier string) []json.RawMessage {
 		out = append(out, b)
 	}
 	// fixed corner cases first
-	for _, s := range []string{"", "_", "_id", "-x", ".hidden", " a", "a", "A", "1", "PDFLoader", "AB1c", "a1b", "ID", "userID",
+	for _, s := range []string{"IDsOfUser", "listURLsByName", "HTTPs_proxy", "ABsC", "ABs", "AsB", "", "_", "_id", "-x", ".hidden", " a", "a", "A", "1", "PDFLoader", "AB1c", "a1b", "ID", "userID",
 		"__init__", "a__b", "\xff", "a\xffb", "\xc3", "İstanbul", "ǅ", "a-b_c d", "99Bottles", "BöseÜberraschung", "BadUTF8\xe2\xe2\xa1"} {
 		add(s)
 	}
